@@ -2299,7 +2299,10 @@ def oracles_gpsdtx(line, real_out):
 def gen_gpsdtx(rng, n, profile):
     for ln in gen_gpsdsetup(rng, max(30, n)):
         yield ln
-    replies = [b'OK', b'OK\n', b'ERROR', b'{"class":"ACK"}', b'{"class":"ERROR"}', b'', b' ok ', b'NACK', b'K', b'O', b'\r\nACK\r\n']
+    replies = [b'OK', b'OK\n', b'ERROR', b'{"class":"ACK"}', b'{"class":"ERROR"}', b'', b' ok ', b'NACK', b'K', b'O', b'\r\nACK\r\n',
+               # what else a daemon may say: other words of refusal and of assent, near misses of the two that count
+               b'NAK', b'{"class":"NAK"}', b'NO', b'KO', b'AC', b'CK', b'A C K', b'O K', b'ack', b'okay', b'NOK', b'FAIL', b'BUSY', b'?', b'0', b'1',
+               b'True', b'success', b'YES', b'DONE']
     for dev in ['/dev/a', '/dev/ttyS3', '/dev/gnss0', '/dev/~!@#$%^*()_+-=[]{};:,.<>?', 'x']:
         for rep in replies:
             yield f'gpsdtx|{dev.encode().hex()}|{rand_payload(rng, rng.choice([0, 1, 8, 40])).hex()}|{rep.hex()}'
